@@ -306,9 +306,13 @@ def correspondence(ctx):
         if pos in ("node", "outside"):
             continue
         f = Interp(xs, np.eye(n), "lagrange", order)
-        w = np.asarray(f(x))
-        supp = [i for i in range(n) if w[i] != 0.0]
-        real = f"ok {int(f._prev_idx(x))} {supp[0]} {supp[-1] + 1}" if supp == list(range(supp[0], supp[-1] + 1)) else f"support {supp}"
+        wk, w = error_kind(lambda: f(x))
+        if wk != "ok":
+            supp, real = [0], wk
+        else:
+            w = np.asarray(w)
+            supp = [i for i in range(n) if w[i] != 0.0] or [0]
+            real = f"ok {int(f._prev_idx(x))} {supp[0]} {supp[-1] + 1}" if supp == list(range(supp[0], supp[-1] + 1)) else f"support {supp}"
         add(" ".join(["c9window", str(order), str(n), f2b(x)] + [f2b(v) for v in xs]), "window", real, {"xs": xs, "x": x, "order": order})
         out.count(key=reqs[-1], kind="window-" + pos, order=order, edge="start" if supp[0] == 0 else "stop" if supp[-1] == n - 1 else "none")
     # 3. whole calls
@@ -474,6 +478,15 @@ def eph_case(out, rng, add):
 
 # ---------------------------------------------------------------- oracle on the real API
 
+def guarded(out, family, inp, fn):
+    """call the real code; an exception inside the domain of the property is a failing input, not a harness error"""
+    kind, r = error_kind(fn)
+    if kind != "ok":
+        out.fail(family, "a call inside the domain of the property raises " + kind, inp, observed=kind + ": " + str(r)[:200], expected="a value")
+        return None
+    return r
+
+
 def par(order):
     return "even" if order % 2 == 0 else "odd"
 
@@ -505,8 +518,11 @@ def oracle(ctx, widened):
         f = Interp(xs, ys, "lagrange", order)
         # a. every node is returned exactly (bitwise up to the sign of zero)
         for j in range(n):
-            r = f(xs[j])
+            pos = "first" if j == 0 else "last" if j == n - 1 else "interior"
+            r = guarded(out, f"node-refused/lagrange/{pos}", {"xs": list(map(float, xs)), "order": order, "node": j}, lambda: f(xs[j]))
             out.count(key=("node", order, n, j, times[0]), kind="node-lagrange", order=order)
+            if r is None:
+                break
             if not np.array_equal(np.asarray(r), ys[j]):
                 pos = "first" if j == 0 else "last" if j == n - 1 else "interior"
                 out.fail(f"node-not-exact/lagrange/{pos}/order-{par(order)}", "Lagrange interpolation at a tabulated abscissa does not return the tabulated value",
@@ -518,9 +534,12 @@ def oracle(ctx, widened):
             x = 58849.0 + t / 86400.0
             if not (xs[0] <= x <= xs[-1]):
                 continue
-            r = np.asarray(f(x))
+            r = guarded(out, f"inside-refused/lagrange/{pos}", {"xs": list(map(float, xs)), "order": order, "x": float(x)}, lambda: f(x))
             e = P(x)
             out.count(key=("poly", order, n, x), kind="poly-" + pos, order=order, uniform=uniform, deg=deg)
+            if r is None:
+                continue
+            r = np.asarray(r)
             if not np.all(np.isfinite(r)):
                 out.fail(f"non-finite/lagrange/{pos}", "non-finite interpolated value inside the table", {"xs": list(map(float, xs)), "order": order, "x": x}, observed=r.tolist())
             elif not np.all(np.abs(r - e) <= 1e-7 * scale):
@@ -556,16 +575,19 @@ def oracle(ctx, widened):
             i = max(0, int(np.searchsorted(xs, x, side="left")) - 1)
             lam = (x - xs[i]) / (xs[i + 1] - xs[i])
             e = yl[i] * (1 - lam) + yl[i + 1] * lam
-            r = np.asarray(g(x))
+            r = guarded(out, f"inside-refused/linear/{pos}", {"xs": list(map(float, xs)), "x": float(x)}, lambda: g(x))
             out.count(key=("pwl", n, x), kind="pwl-" + pos)
+            if r is None:
+                continue
+            r = np.asarray(r)
             if not np.all(np.abs(r - e) <= 1e-12 * (np.abs(yl[i]) + np.abs(yl[i + 1]) + 1e-300)):
                 out.fail(f"pwl-reproduction/{pos}", "linear interpolation does not reproduce piecewise-linear data",
                          {"xs": list(map(float, xs)), "x": float(x), "ys": yl.tolist()}, observed=r.tolist(), expected=e.tolist())
         j = rng.randrange(n)
-        r = np.asarray(g(xs[j]))
+        r = guarded(out, "node-refused/linear/" + ("first" if j == 0 else "last" if j == n - 1 else "interior"), {"xs": list(map(float, xs)), "node": j}, lambda: g(xs[j]))
         out.count(key=("node-linear", n, j, float(xs[0])), kind="node-linear")
         nb = np.abs(yl[j]) + np.abs(yl[max(j - 1, 0)])
-        if not np.all(np.abs(r - yl[j]) <= 4 * 2.3e-16 * nb):
+        if r is not None and not np.all(np.abs(r - yl[j]) <= 4 * 2.3e-16 * nb):
             out.fail("node-not-exact/linear", "linear interpolation at a tabulated abscissa is not the tabulated value (beyond rounding)",
                      {"xs": list(map(float, xs)), "node": j, "ys": yl.tolist()}, observed=r.tolist(), expected=yl[j].tolist())
 
@@ -679,7 +701,9 @@ def orbit_case(out, rng):
     for where in ("first", "last", "interior", "second", "before-last"):
         t, pos = gen_query(rng, times, where)
         dq = d0 + timedelta(seconds=t)
-        r = eph.interpolate(dq)
+        r = guarded(out, f"inside-refused/orbit/{pos}", {"kep": list(map(float, kep)), "times": times, "t": t, "order": order}, lambda: eph.interpolate(dq))
+        if r is None:
+            continue
         true = kep.propagate(dq).copy(form="cartesian")
         err = float(np.linalg.norm(np.asarray(r)[:3] - np.asarray(true)[:3]))
         out.count(key=("orbit", sma, t, order), kind="orbit-" + pos, order=order, uniform=uniform)
@@ -706,14 +730,17 @@ def stale_case(out, rng):
     new = rng.choice(["keplerian", "spherical"]) if what == "form" else rng.choice(["ITRF", "MOD", "TEME"])
     for warm in (False, True):
         eph = Ephem([p.copy() for p in pts])
-        if warm:
-            eph.interpolate(dq)
+        inp0 = {"kep": list(map(float, kep)), "times": times, "t": t, "new": new, "interpolated_before": warm}
+        if warm and guarded(out, f"inside-refused/stale-scenario/{pos}", inp0, lambda: eph.interpolate(dq)) is None:
+            continue
         if what == "form":
             eph.form = new
         else:
             eph.frame = new
-        r = eph.interpolate(dq)
-        fresh = Ephem([p.copy() for p in eph]).interpolate(dq)
+        r = guarded(out, f"inside-refused/after-{what}-set/{pos}", inp0, lambda: eph.interpolate(dq))
+        fresh = guarded(out, f"inside-refused/fresh/{pos}", inp0, lambda: Ephem([p.copy() for p in eph]).interpolate(dq))
+        if r is None or fresh is None:
+            continue
         out.count(key=("stale", what, new, warm, sma, t), kind=f"after-{what}-change-{'warm' if warm else 'cold'}")
         label_ok = str(getattr(r, what)) == new
         a, b = np.asarray(r, dtype=float), np.asarray(fresh, dtype=float)
